@@ -15,18 +15,21 @@ vars == <<toks, pend>>
 (* sibling must not disturb the value an earlier operand already produced                            *)
 (* ELEM / FLD read a list element / an object field, PUT / FBUMP write that very slot and return it    *)
 (* idxcall: `(mkl(n))[<index>]` - the indexed expression is evaluated before the subscript; idxswap: `cur[swp()]` where swp() re-points cur *)
-IntProds == {"L", "add", "sub", "mul", "call2", "call3", "orp", "orn", "rec", "neg", "VAR", "BUMP", "ELEM", "PUT", "FLD", "FBUMP", "idxcall", "idxswap"}
+IntProds == {"L", "add", "sub", "mul", "call2", "call3", "orp", "orn", "rec", "neg", "VAR", "BUMP", "ELEM", "PUT", "FLD", "FBUMP", "idxcall", "idxswap", "rep", "repr"}
+(* rep / repr: `(n * s).len()` and `(s * n).len()` with a logging count and a logging text: operands of different types *)
 (* KT / KF are the literals true / false (no side effect): folding must not drop a sibling *)
 (* BELEM / BFLD read a bool out of a list element / an object field (what reaches the operator or the condition is a view) *)
 (* orself / andself: `a || self.noisy()` / `a && self.noisy()` inside a method (the right operand names no variable) *)
-BoolProds == {"LT", "LF", "and", "or", "lt", "eq", "not", "andor", "KT", "KF", "BELEM", "BFLD", "orself", "andself"}
+(* DIVZ: `7 / zz > 0` with zz = 0 - an operand without any call or write that fails when it is evaluated: behind a deciding *)
+(* left operand of && / || it is not evaluated, and the program goes on                                                  *)
+BoolProds == {"LT", "LF", "and", "or", "lt", "eq", "not", "andor", "KT", "KF", "BELEM", "BFLD", "orself", "andself", "DIVZ"}
 IxProds == {"LI0", "LI1"}
 (* listself / callself / sumself: a zero-argument recursive call `self()` as a later element / argument / operand, after a plain *)
 (* name (the earlier value is on the operand stack while the callee runs)                                                      *)
 RootProds == {"printi", "printb", "list3", "call4", "ifb", "assign2", "listidx", "map3", "mcall2", "listself", "callself", "sumself"}
 Kids(p) ==
-    CASE p \in {"L", "LT", "LF", "LI0", "LI1", "VAR", "BUMP", "KT", "KF", "ELEM", "PUT", "FLD", "FBUMP", "listself", "callself", "sumself", "BELEM", "BFLD", "idxswap"} -> <<>>
-      [] p = "idxcall" -> <<"ix">>
+    CASE p \in {"L", "LT", "LF", "LI0", "LI1", "VAR", "BUMP", "KT", "KF", "ELEM", "PUT", "FLD", "FBUMP", "listself", "callself", "sumself", "BELEM", "BFLD", "idxswap", "DIVZ"} -> <<>>
+      [] p \in {"idxcall", "rep", "repr"} -> <<"ix">>
       [] p \in {"orself", "andself"} -> <<"bool">>
       [] p \in {"add", "sub", "mul", "call2", "lt", "eq"} -> <<"int", "int">>
       [] p = "call3" -> <<"int", "int", "int">>
@@ -43,7 +46,7 @@ Kids(p) ==
       [] p = "ifb" -> <<"bool">>
       [] p = "assign2" -> <<"int", "int">>
 Prods(ty) == CASE ty = "int" -> IntProds [] ty = "bool" -> BoolProds [] ty = "ix" -> IxProds [] ty = "root" -> Roots
-Leafs(ty) == CASE ty = "int" -> {"L", "VAR", "BUMP", "ELEM", "PUT", "FLD", "FBUMP", "idxswap"} [] ty = "bool" -> {"LT", "LF", "KT", "KF", "BELEM", "BFLD"} [] ty = "ix" -> IxProds [] ty = "root" -> {}
+Leafs(ty) == CASE ty = "int" -> {"L", "VAR", "BUMP", "ELEM", "PUT", "FLD", "FBUMP", "idxswap"} [] ty = "bool" -> {"LT", "LF", "KT", "KF", "BELEM", "BFLD", "DIVZ"} [] ty = "ix" -> IxProds [] ty = "root" -> {}
 
 Init == toks = <<>> /\ pend = <<[ty |-> "root", d |-> 0]>>
 Choose(p) ==
@@ -82,6 +85,9 @@ Parse(ts, i) ==
              [] p = "andself" -> MCall(V("box"), "andself", <<x[1]>>)
              [] p = "BELEM" -> Idx(V("bcells"), V("z0"))
              [] p = "BFLD" -> Fld(V("box"), "on")
+             [] p = "DIVZ" -> Bin(">", Bin("/", I(7), V("zz")), I(0))
+             [] p = "rep" -> MCall([k |-> "paren", e |-> Bin("*", x[1], Call(V("ls"), <<I(i)>>))], "len", <<>>)
+             [] p = "repr" -> MCall([k |-> "paren", e |-> Bin("*", Call(V("ls"), <<I(i)>>), x[1])], "len", <<>>)
              [] p = "KT" -> B(TRUE)
              [] p = "KF" -> B(FALSE)
              [] p = "LT" -> Call(V("lb"), <<I(i), B(TRUE)>>)
@@ -127,7 +133,8 @@ Tail2(ts) == IF ts[1] = "map3" THEN <<Print(Idx(V("mm"), S("a"))), Print(Idx(V("
              ELSE IF ts[1] = "assign2" THEN <<Print(V("pair"))>> ELSE <<>>
 
 Prologue ==
-    <<Let("cnt", I(1000)), Let("left", I(3)),
+    <<Let("cnt", I(1000)), Let("left", I(3)), Let("zz", I(0)),
+      Let("ls", Fn("ls", <<P("n", "int")>>, "str", <<Print(V("n")), Ret(S("ab"))>>)),
       LetT("cells", "[int...]", List(<<I(500)>>)), Let("z0", I(0)), LetT("bcells", "[bool...]", List(<<B(TRUE), B(FALSE)>>)),
       Let("put", Fn("put", <<>>, "int", <<Print(S("put")), Let("k0", I(0)), Assign(Idx(V("cells"), V("k0")), "+", I(1)), Ret(Idx(V("cells"), V("k0")))>>)),
       [k |-> "class", n |-> "Box", export |-> FALSE, fields |-> <<[n |-> "n", ty |-> "int"], [n |-> "on", ty |-> "bool"]>>,
